@@ -6,6 +6,7 @@ import BddModel.Eda
 import BddModel.EdaFast
 import BddModel.Bits
 import BddModel.Driver
+import BddModel.DriverQuery
 /-! Line-protocol driver: one operation per input line, one canonical reply line.
 The Rust harness executes the same lines on the real crate and compares the replies. -/
 open P Arr
@@ -391,12 +392,18 @@ def stepMgr (d : DState) (s : St) (toks : List String) : DState × String :=
     match parseExprTree d.env (fun _ => true) (ts.length + 1) ts with
     | some (e, []) => viaExec d s (.expr e)
     | _ => keep d s "bad-op"
-  | ["low", f] => match hOf d.env s f with | some f => pushRes d (.ok (s, s.lowNode f)) | none => keep d s "bad-op"
-  | ["high", f] => match hOf d.env s f with | some f => pushRes d (.ok (s, s.highNode f)) | none => keep d s "bad-op"
+  | ["low", f] =>
+    match hOf d.env s f with
+    | some f => (match execQuery FUEL s (.low f) with | .handle r => pushRes d (.ok (s, r)) | _ => keep d s "bad-op")
+    | none => keep d s "bad-op"
+  | ["high", f] =>
+    match hOf d.env s f with
+    | some f => (match execQuery FUEL s (.high f) with | .handle r => pushRes d (.ok (s, r)) | _ => keep d s "bad-op")
+    | none => keep d s "bad-op"
   | ["topcof", f, v] =>
     match hOf d.env s f, v.toNat? with
     | some f, some v =>
-      match topCofactors s f v with
+      match (match execQuery FUEL s (.topcof f v) with | .pair x => x | _ => .error .assertion) with
       | .ok (a, b) =>
         let abs := d.abs
         let env := d.env
@@ -422,16 +429,19 @@ def stepMgr (d : DState) (s : St) (toks : List String) : DState × String :=
   | ["satcount", f, n] =>
     match hOf d.env s f, n.toNat? with
     | some f, some n =>
-      keep d s (match satCount FUEL s f n with | .ok c => toString c | .error e => "panic " ++ e.toString)
+      keep d s (match execQuery FUEL s (.satcount f n) with
+        | .count (.ok c) => toString c | .count (.error e) => "panic " ++ e.toString | _ => "bad-op")
     | _, _ => keep d s "bad-op"
   | ["onesat", f] =>
     match hOf d.env s f with
-    | some f => keep d s (match oneSat FUEL s f [] with | some p => showIntList p | none => "None")
+    | some f => keep d s (match execQuery FUEL s (.onesat f) with
+        | .model (some p) => showIntList p | .model none => "None" | _ => "bad-op")
     | none => keep d s "bad-op"
   | ["paths", f] =>
     match hOf d.env s f with
-    | some f => keep d s (match paths FUEL s f with
-        | some ps => "[" ++ ", ".intercalate (ps.map showIntList) ++ "]" | none => "panic fuel")
+    | some f => keep d s (match execQuery FUEL s (.paths f) with
+        | .cubes (some ps) => "[" ++ ", ".intercalate (ps.map showIntList) ++ "]" | .cubes none => "panic fuel"
+        | _ => "bad-op")
     | none => keep d s "bad-op"
   | ["acc", f] =>
     match hOf d.env s f with
@@ -470,7 +480,8 @@ def stepMgr (d : DState) (s : St) (toks : List String) : DState × String :=
     | none => keep d s "bad-op"
   | "desc" :: rs =>
     match hsOf d.env s rs with
-    | some rs => keep d s (if d.abs then toString (descendants s rs).length else showNatList (sortNat (descendants s rs)))
+    | some rs => keep d s (match execQuery FUEL s (.desc rs) with
+        | .cells l => if d.abs then toString l.length else showNatList (sortNat l) | _ => "bad-op")
     | none => keep d s "bad-op"
   | "gc" :: rs =>
     match hsOf d.env s rs with
@@ -478,13 +489,15 @@ def stepMgr (d : DState) (s : St) (toks : List String) : DState × String :=
     | none => keep d s "bad-op"
   | ["bracket", f] =>
     match hOf d.env s f with
-    | some f => keep d s (if d.abs then (canonRef 100000 s f []).1 else toBracketString FUEL s f)
+    | some f => keep d s (if d.abs then (canonRef 100000 s f []).1 else
+        match execQuery FUEL s (.bracket f) with | .text t => t | _ => "bad-op")
     | none => keep d s "bad-op"
   | "dot" :: rs =>
     match hsOf d.env s rs with
-    | some rs => keep d s (match renderDot s rs with
-        | .ok ls => if d.abs then "dot " ++ toString ((descendants s rs).length) else "\\n".intercalate ls
-        | .error e => "panic " ++ e.toString)
+    | some rs => keep d s (match execQuery FUEL s (.dot rs) with
+        | .lines (.ok ls) => if d.abs then "dot " ++ toString ((descendants s rs).length) else "\\n".intercalate ls
+        | .lines (.error e) => "panic " ++ e.toString
+        | _ => "bad-op")
     | none => keep d s "bad-op"
   | ["dump"] => keep d s (if d.abs then "-" else stSnapshot s)
   | ["digest"] => keep d s (if d.abs then "-" else toString (fnv1a (stSnapshot s)).toNat)
